@@ -4,6 +4,7 @@
 -/
 import Model.LoD
 import Lemmas.LoD
+import Lemmas.LoDEdit
 
 namespace DI.C15
 
@@ -51,6 +52,39 @@ theorem list_ops (xs ys : List Item) (it : Item) (n : Nat) :
     append xs it = xs ++ [it] ∧ add xs ys = xs ++ ys ∧ extend xs ys = xs ++ ys ∧
     reverse xs = xs.reverse ∧ (mul xs n).length = n * xs.length :=
   ⟨rfl, rfl, rfl, rfl, mul_length xs n⟩
+
+/-- modify changes exactly the named key: same item objects in the same order, every other key
+    keeps its value, the named key holds the function's value. -/
+theorem modify_only_named_key (xs : List Item) (key : String) (vals : List Val) (hl : vals.length = xs.length)
+    (i : Nat) (hi : i < xs.length) :
+    ∃ h' : i < (modify xs key vals).length,
+      ((modify xs key vals)[i]).tag = xs[i].tag ∧
+      ((modify xs key vals)[i]).kv.get? key = some (vals[i]'(by omega)) ∧
+      ∀ k', k' ≠ key → ((modify xs key vals)[i]).kv.get? k' = xs[i].kv.get? k' :=
+  modify_spec xs key vals hl i hi
+
+/-- unselect removes exactly the named keys. -/
+theorem unselect_only_named_keys (xs : List Item) (keys : List String) (i : Nat) (hi : i < xs.length) :
+    ∃ h' : i < (unselect xs keys).length,
+      ((unselect xs keys)[i]).tag = xs[i].tag ∧
+      ∀ k', ((unselect xs keys)[i]).kv.get? k' = if k' ∈ keys then none else xs[i].kv.get? k' :=
+  unselect_spec xs keys i hi
+
+/-- fill_missing_keys never overwrites a key an item already has (even with value None), and
+    afterwards every item has every named key. -/
+theorem fill_missing_only_adds (xs : List Item) (kvs : List (String × Val)) :
+    (∀ i (hi : i < xs.length) k', (xs[i].kv.get? k').isSome →
+      ∃ h' : i < (fillMissing xs kvs).length, ((fillMissing xs kvs)[i]).kv.get? k' = xs[i].kv.get? k' ∧
+        ((fillMissing xs kvs)[i]).tag = xs[i].tag) ∧
+    (∀ it ∈ fillMissing xs kvs, ∀ k ∈ kvs.map (·.1), (it.kv.get? k).isSome) :=
+  ⟨fun i hi k' h => fillMissing_keeps_existing xs kvs i hi k' h,
+   fun it hit k hk => fillMissing_has_all xs kvs it hit k hk⟩
+
+/-- dict assignment and deletion touch one key only. -/
+theorem dict_set_del_local (d : Dict) (k k' : String) (v : Val) (h : k' ≠ k) :
+    (d.set k v).get? k' = d.get? k' ∧ (d.set k v).get? k = some v ∧
+    (d.del k).get? k' = d.get? k' ∧ (d.del k).get? k = none :=
+  ⟨Dict.get?_set_other d k k' v h, Dict.get?_set_self d k v, Dict.get?_del_other d k k' h, Dict.get?_del_self d k⟩
 
 example : insertPos 3 (-1) = 2 ∧ insertPos 3 5 = 3 ∧ insertPos 3 (-7) = 0 := by decide
 example : (tail [⟨0, []⟩, ⟨1, []⟩, ⟨2, []⟩] 0).length = 0 := by decide
